@@ -96,7 +96,7 @@ pub fn judge(item: &Item, obs: &Obs, seq: Option<&Result<hcore::visit::TermResul
         vs.extend(oracle::chk_exact(&cx));
     }
     if ck & CK_EARLY != 0 {
-        vs.extend(oracle::chk_early_exit(&cx));
+        vs.extend(oracle::chk_early_exit(&cx, item.plan.fair_k));
     }
     if ck & CK_PANIC != 0 {
         vs.extend(oracle::chk_panic(&cx));
@@ -309,11 +309,14 @@ pub fn run_item(prop: &str, item: &Item) -> ItemResult {
                 }
             }
         }
-        (obs.rec, Next::Continue)
+        // an item is abandoned at its first violating execution: the verdict is in, and a changed tree can make
+        // the rest of the item arbitrarily expensive (e.g. surplus workers)
+        let next = if res.violations.is_empty() { Next::Continue } else { Next::Stop };
+        (obs.rec, next)
     });
     let _ = case_h;
     res.executions = out.executions;
-    res.complete = out.complete;
+    res.complete = out.complete || out.stopped;
     res.states = stats.states.len() as u64;
     res.edges = stats.edges.len() as u64;
     res.steps = stats.steps;
